@@ -29,6 +29,7 @@ CANDS = {
     "Bz":   ("z", "B-z", "addon", ("i386",)),                      # arch outside the parent's
     "Aoz":  ("z", "A-o-z", "addon", ("i386",)),                    # arch the parent A-o lacks (grandparent has it)
     "Xm":   ("m", "X-m", "addon", ("x86_64",)),                    # misaligned UID wherever it is added
+    "Aq":   ("q", "Aq", "addon", ("x86_64",)),                     # UID that is right except for the missing dash (under A)
 }
 ORDER = list(CANDS)
 ARCH_FILTERS = [None, "x86_64", "i386", "ppc64", "src"]
@@ -167,12 +168,17 @@ def subtree(container, recursive):
     return out
 
 
+SELF_FILTERS = [["self"], ["self", "addon"], ["self", "optional", "variant"]]
+
+
 def check_queries(ci, acc=None):
     problems = []
     levels = [ci.variants] + [v for v in subtree(ci.variants, True) if v.variants]
     n = 0
+    before = observe(ci)
     for level in levels:
-        for arch, types, recursive in itertools.product(ARCH_FILTERS, TYPE_FILTERS, (False, True)):
+        nested = level is not ci.variants
+        for arch, types, recursive in itertools.product(ARCH_FILTERS, TYPE_FILTERS + (SELF_FILTERS if nested else []), (False, True)):
             r = call(level.get_variants, arch=arch, types=types, recursive=recursive)
             n += 1
             q = "%s.get_variants(arch=%r, types=%r, recursive=%r)" % (getattr(level, "uid", "<top>"), arch, types, recursive)
@@ -186,6 +192,11 @@ def check_queries(ci, acc=None):
             if uids != sorted(uids):
                 problems.append("%s is not ordered by UID: %s" % (q, uids))
             universe = subtree(level, recursive)
+            if types and "self" in types:
+                if sum(1 for v in res if v is level) != 1:
+                    problems.append("%s does not contain the variant itself exactly once: %s" % (q, uids))
+                res = [v for v in res if v is not level]
+                types = [t for t in types if t != "self"]
             for v in res:
                 if not any(v is u for u in universe):
                     problems.append("%s returns %s which is not below that level" % (q, v.uid))
@@ -196,6 +207,9 @@ def check_queries(ci, acc=None):
             if arch is None and types is None:
                 if sorted(uids) != sorted(v.uid for v in universe):
                     problems.append("%s = %s, expected every variant %s" % (q, uids, sorted(v.uid for v in universe)))
+    if observe(ci) != before:
+        problems.append("the queries changed the forest (ids, UIDs, types or arch sets differ after get_variants calls)")
+    problems.extend("after the queries: " + p for p in invariants(ci)[:2])
     return problems, n
 
 
@@ -345,15 +359,15 @@ KNOWN = {}
 
 def describe(tier):
     return {
-        "rule": "candidate pool of 11 variants (top-level A{i386,x86_64}, B{x86_64}, dashed childless top-level A-X (sorting between A and its children); children A-o "
+        "rule": "candidate pool of 12 variants (top-level A{i386,x86_64}, B{x86_64}, dashed childless top-level A-X (sorting between A and its children); children A-o "
                 "(optional), A-a (addon), grandchild A-o-g (layered-product), B-o; invalid siblings: a second object with id o, "
-                "children with an arch outside the parent's (under B and under A-o), a misaligned UID X-m); operations target.add("
+                "children with an arch outside the parent's (under B and under A-o), a misaligned UID X-m, a UID that lacks only the dash); operations target.add("
                 "cand) for every target in the forest or the top container x every candidate (incl. the same object again, an "
                 "ancestor under its descendant, a top-level variant under another) and reload (write + read into a fresh object). "
                 "Every history up to the depth, deduplicated on the model state; after every step: accepted/refused as the model "
                 "says, refusal = ValueError and unchanged contents, forest == model, invariants (child UID = parent UID-id, child "
                 "arches within parent's, unique UIDs, ci[uid] and parent[id] find the variant, .parent mirrors containment); on "
-                "every source state 110 get_variants queries per level (5 arch filters x 11 type filters x recursive).  Non-trivial: "
+                "every source state 110 get_variants queries per level (5 arch filters x 11 type filters x recursive; + 3 filters containing 'self' on nested levels), after which the forest must be unchanged.  Non-trivial: "
                 "a history of >= 2 operations.",
         "bound": "history depth <= %d (the model's state space closes at depth 8: 7 placeable variants + reload)" % depth(tier),
         "exhaustive": True,
